@@ -1,6 +1,7 @@
 package props
 
 import (
+	"runtime"
 	"encoding/json"
 	"fmt"
 	"strings"
@@ -123,6 +124,11 @@ type c05Case struct {
 	Code  int      `json:"code"`
 	Ref   int      `json:"ref,omitempty"`
 	Codes []int    `json:"codes,omitempty"` // kind codeswitch: the genetic codes to use one after the other
+	// AfterSample (bag, aln): a sample of all rows is drawn from the container and translated (frame 0) first;
+	// the container itself is then translated and must give the translation of its rows as they were built
+	AfterSample bool `json:"after_sample,omitempty"`
+	// Procs (codonalign): GOMAXPROCS during the call (0 = unchanged)
+	Procs int `json:"procs,omitempty"`
 }
 
 const c05CodonAlpha = "ACGTURYSWKMBDHVNacgturyswkmbdhvn-.*?XxZ1 \xe9"
@@ -191,6 +197,35 @@ func c05Tasks(tier string) []mc.Task {
 			}
 		}
 	}
+	// (ii') a sample of the container translated before the container itself (frames 0..2, three codes)
+	ts = append(ts, mc.Task{Name: "after-sample#all", Run: func(c *mc.Ctx) {
+		for _, seqs := range [][]string{{"ATGGCTTAA"}, {"ATGGCTTAA", "ATGTTTAAG"}, {"ATGGCTTAAG", "CCATGGTTAA", "ATGNNNTRAC"}} {
+			for _, kind := range []string{"bag", "aln"} {
+				for _, code := range geneticCodes {
+					for fr := 0; fr < 3; fr++ {
+						c05Check(c, c05Case{Kind: kind, Seqs: seqs, Frame: fr, Code: code, AfterSample: true})
+					}
+				}
+			}
+		}
+	}})
+	// (iii') CodonAlign on many rows (100, 101, 130, 257) with 1, 2, 3, 4 processors: work shared out by row
+	// blocks must cover every row
+	ts = append(ts, mc.Task{Name: "codonalign#many-rows", Run: func(c *mc.Ctx) {
+		codons := []string{"ATG", "GCT", "AAA", "TGG", "GAT", "CTG"}
+		for _, n := range []int{100, 101, 130, 257} {
+			var nt, pr []string
+			for i := 0; i < n; i++ {
+				s := codons[i%6] + codons[(i/6)%6] + codons[(i/36)%6]
+				nt = append(nt, s)
+				p := refTranslate(s, 0, align.GENETIC_CODE_STANDARD)
+				pr = append(pr, p[:1+i%2]+"-"+p[1+i%2:])
+			}
+			for _, procs := range []int{1, 2, 3, 4} {
+				c05Check(c, c05Case{Kind: "codonalign", Seqs: nt, Prot: pr, Code: align.GENETIC_CODE_STANDARD, Procs: procs})
+			}
+		}
+	}})
 	// (iii) CodonAlign: all nucleotide rows of length 3..maxNt over {A,C,G,T}, n<=2, protein = translation with <=2 gap columns inserted
 	maxNt := 6
 	if tier == "thorough" {
@@ -393,7 +428,20 @@ func c05Check(c *mc.Ctx, cs c05Case) {
 			return
 		}
 		var err error
-		pn, msg := mc.Guard(func() { err = sb.Translate(cs.Frame, cs.Code) })
+		pn, msg := mc.Guard(func() {
+			if cs.AfterSample {
+				var smp align.SeqBag
+				if al, ok := sb.(align.Alignment); ok {
+					smp, _ = al.Sample(len(r))
+				} else {
+					smp, _ = sb.SampleSeqBag(len(r))
+				}
+				if smp != nil {
+					smp.Translate(0, cs.Code)
+				}
+			}
+			err = sb.Translate(cs.Frame, cs.Code)
+		})
 		if pn {
 			viol("panic", msg)
 			return
@@ -494,9 +542,24 @@ func c05Compare(c *mc.Ctx, cs c05Case, s, want, got string, err error, viol func
 	}
 }
 
+func c05RowName(i int) string {
+	if i < len(rowNames) {
+		return rowNames[i]
+	}
+	return fmt.Sprintf("r%04d", i)
+}
+
+func c05Named(seqs []string) rows {
+	out := make(rows, len(seqs))
+	for i, s := range seqs {
+		out[i] = row{c05RowName(i), s}
+	}
+	return out
+}
+
 func c05CodonAlign(c *mc.Ctx, cs c05Case, viol func(string, string)) {
-	prot, e1 := mkAlign(align.AMINOACIDS, namedRows(cs.Prot...))
-	nt, e2 := mkSeqBag(align.NUCLEOTIDS, namedRows(cs.Seqs...))
+	prot, e1 := mkAlign(align.AMINOACIDS, c05Named(cs.Prot))
+	nt, e2 := mkSeqBag(align.NUCLEOTIDS, c05Named(cs.Seqs))
 	if e1 != nil || e2 != nil {
 		c.Fatal("cannot build codonalign input %v: %v %v", cs, e1, e2)
 		return
@@ -504,6 +567,9 @@ func c05CodonAlign(c *mc.Ctx, cs c05Case, viol func(string, string)) {
 	var out align.Alignment
 	var err error
 	pn, msg := mc.Guard(func() {
+		if cs.Procs > 0 {
+			defer runtime.GOMAXPROCS(runtime.GOMAXPROCS(cs.Procs))
+		}
 		o, e := prot.CodonAlign(nt)
 		if e == nil {
 			out = o
@@ -528,7 +594,7 @@ func c05CodonAlign(c *mc.Ctx, cs c05Case, viol func(string, string)) {
 		return
 	}
 	for i, g := range got {
-		if g.Name != rowNames[i] || len(g.Seq) != 3*len(cs.Prot[i]) {
+		if g.Name != c05RowName(i) || len(g.Seq) != 3*len(cs.Prot[i]) {
 			viol("shape", fmt.Sprintf("row %d = %v", i, g))
 			return
 		}
